@@ -59,7 +59,21 @@ NulScripts ==
        CSetKeyOp(ka[2], 1), CSetCbOp(<<[k |-> "read"]>>), VerifyOp([src |-> "slot", slot |-> 0]) >> :
       ka \in { <<OctKey(32, "a", NONE, NONE), "HS256">>, <<AsymKey("p256a", 1, NONE, NONE), "ES256">> },
       p1 \in Providers, p2 \in Providers, w \in {"hdr", "clm"} }
-C05Scripts == TreeScripts \cup NoneScripts \cup NulScripts
+\* an application-set typ header of every JSON type (the builder keeps it, C10): the token must verify
+TypSet(v) == [op |-> "BMap", b |-> 0, k |-> "set", which |-> "hdr", map |-> 0, v |-> v]
+TypVals == { [t |-> "int", name |-> "typ", val |-> WOf(7), replace |-> 1, jcls |-> NONE, jm |-> <<>>, jcanon |-> NONE],
+             [t |-> "bool", name |-> "typ", val |-> 1, replace |-> 1, jcls |-> NONE, jm |-> <<>>, jcanon |-> NONE],
+             [t |-> "str", name |-> "typ", val |-> "", replace |-> 1, jcls |-> NONE, jm |-> <<>>, jcanon |-> NONE],
+             [t |-> "json", name |-> "typ", val |-> "{\"a\":[1,null]}", replace |-> 1, jcls |-> "objx", jm |-> <<>>, jcanon |-> NONE],
+             [t |-> "json", name |-> "typ", val |-> "[1.5]", replace |-> 1, jcls |-> "objx", jm |-> <<>>, jcanon |-> NONE],
+             [t |-> "json", name |-> "kid", val |-> "{\"k\":null}", replace |-> 1, jcls |-> "objx", jm |-> <<>>, jcanon |-> NONE],
+             [t |-> "int", name |-> "crit", val |-> WOf(0), replace |-> 1, jcls |-> NONE, jm |-> <<>>, jcanon |-> NONE] }
+TypScripts ==
+  { << OpsOp(p1), LoadOp(<<ka[1], Pub(ka[1])>>), BNewOp, BSetKeyOp(ka[2], 0), TypSet(v), [op |-> "Generate", b |-> 0, slot |-> 0, lite |-> 1],
+       OpsOp(p2), CNewOp, CSetKeyOp(ka[2], 1), CSetCbOp(<<[k |-> "read"]>>), VerifyOp([src |-> "slot", slot |-> 0]) >> :
+      ka \in { <<OctKey(32, "a", NONE, NONE), "HS256">>, <<AsymKey("ed25519a", 1, NONE, NONE), "EdDSA">> },
+      p1 \in Providers, p2 \in Providers, v \in TypVals }
+C05Scripts == TreeScripts \cup NoneScripts \cup NulScripts \cup TypScripts
 
 \* many ECDSA signatures with small fixed claims (the harness repeats the final pair)
 EcPairs == { <<AsymKey("p256a", 1, NONE, NONE), "ES256">>, <<AsymKey("p384a", 1, NONE, NONE), "ES384">>,
